@@ -2,22 +2,25 @@
 # try_mutant.sh <id> [check ids...] : applies a seeded patch to a scratch copy of /repo (/tmp/mutrepo, a git worktree at /repo's HEAD)
 # and runs the quick checks against that copy (VERIF_REPO / VERIF_SCRATCH, see lib/vlib.py); /repo and /verif/evidence are untouched.
 id=$1; shift
+sfx=${MUT_SUFFIX:-}
+repo=/tmp/mutrepo$sfx
+scratch=/tmp/mutscratch$sfx
 checks=${@:-$id}
 p=/verif/seeded/$id/patch.diff
 [ -f $p ] || p=/tmp/mut_$id/out/patch.diff
 res=/verif/out/tmp/mutant_$id.txt
-mkdir -p /verif/out/tmp /tmp/mutscratch
+mkdir -p /verif/out/tmp $scratch
 echo "== $id $(date) patch=$p" > $res
-if [ ! -d /tmp/mutrepo ]; then git -C /repo worktree add -q --detach /tmp/mutrepo HEAD || exit 2; fi
-cd /tmp/mutrepo && git checkout -q --detach $(git -C /repo rev-parse HEAD) && git checkout -q -- . && git clean -fdq lib
+if [ ! -d $repo ]; then git -C /repo worktree add -q --detach $repo HEAD || exit 2; fi
+cd $repo && git checkout -q --detach $(git -C /repo rev-parse HEAD) && git checkout -q -- . && git clean -fdq lib
 if ! git apply --check $p 2>>$res; then echo "PATCH DOES NOT APPLY" >> $res; exit 1; fi
 git apply $p
 for c in $checks; do
   cd /verif
-  VERIF_REPO=/tmp/mutrepo VERIF_SCRATCH=/tmp/mutscratch timeout 2400 ./check $c > /verif/out/tmp/mutant_${id}_$c.log 2>&1
+  VERIF_REPO=$repo VERIF_SCRATCH=$scratch timeout 2400 ./check $c > /verif/out/tmp/mutant_${id}_$c.log 2>&1
   rc=$?
   echo "check $c exit $rc" >> $res
   grep -E "^VIOLATION|signature:|TOOL-ERROR" /verif/out/tmp/mutant_${id}_$c.log | head -6 >> $res
 done
-cd /tmp/mutrepo && git checkout -q -- .
+cd $repo && git checkout -q -- .
 echo "== done" >> $res
